@@ -42,6 +42,12 @@ func Spec() *evid.Spec {
 func runExec(c *evid.Case) {
 	env := c.Data.(*qsim.Env)
 	cfg := qrun.GenConfig(c.Rng, c.Tier)
+	if c.Rng.Intn(3) == 0 {
+		// one operator's own value check refuses a value the others accept (per-operator slashing-protection stores): whatever the
+		// others prepare, it must never reach a local decision on that value
+		cfg.Picky, cfg.PickyValue = 1+c.Rng.Intn(cfg.N), c.Rng.Intn(4)
+		c.Count("exec_with_an_operator_refusing_one_value", 1)
+	}
 	res := qrun.Run(c, env, cfg, nil)
 	for _, f := range res.Certs {
 		c.Violation(f.Kind, f.Sig, f.Detail, qrun.Witness(res))
